@@ -49,6 +49,7 @@ type SliceV struct {
 	Elem          types.Type
 }
 type IfaceV struct {
+	Lib    bool  // error created by an external library call: never one of the repository's sentinel errors
 	ID     *Term // Int; 0 == nil interface
 	Dyn    types.Type
 	Val    Value
